@@ -15,10 +15,15 @@
 (*   ExcludeOnAnyPathPart   _is_hardcoded_excluded scans every part of the  *)
 (*                          spelled path, including those above the project *)
 (*   MarkerSubstring        test-code / ignore checks on str(path)          *)
+(*   RuleParserAtCwd        the rules' shared ignore parser is rooted at    *)
+(*                          the working directory: started from another     *)
+(*                          project's root (cwd "other": its own            *)
+(*                          .thailintignore hides every source file), THAT  *)
+(*                          project's ignore patterns are applied as well   *)
 (***************************************************************************)
 EXTENDS Naturals, Sequences, FiniteSets, TLC, Json
 
-CONSTANTS ExcludeOnAnyPathPart, MarkerSubstring
+CONSTANTS ExcludeOnAnyPathPart, MarkerSubstring, RuleParserAtCwd
 
 Excluded == {"build", "dist", "venv", ".venv", "node_modules", "__pycache__", "htmlcov", ".tox",
              "pkg.egg-info"}
@@ -26,7 +31,7 @@ Markers  == {"tests", "test", "test_data", "examples", "benches", "legacy", "gen
 Plain    == {"x", "proj", "with space"}
 Parents  == Excluded \cup Markers \cup Plain
 
-Cwds      == {"root", "parent", "inside", "else", "checkout"}
+Cwds      == {"root", "parent", "inside", "else", "checkout", "other"}
 \* mixedAbsRel: two path arguments in one invocation - the project directory spelled absolutely and its (empty)
 \* sub-directory spelled relatively from outside the project
 Spellings == {"absolute", "dot", "dotslash", "relative", "trailing", "dotdot", "mixedAbsRel"}
@@ -37,8 +42,9 @@ Valid(c, s) == CASE c = "root"     -> s \in {"absolute", "dot", "dotslash", "dot
                  [] c = "inside"   -> s \in {"absolute", "dotdot"}
                  [] c = "else"     -> s \in {"absolute", "dotdot", "mixedAbsRel"}
                  [] c = "checkout" -> s \in {"absolute", "dotdot", "mixedAbsRel"}
+                 [] c = "other"    -> s \in {"absolute", "dotdot"}
 MentionsParent(c, s) == \/ s \in {"absolute", "mixedAbsRel"}
-                        \/ (c \in {"else", "checkout"} /\ s = "dotdot")
+                        \/ (c \in {"else", "checkout", "other"} /\ s = "dotdot")
                         \/ (c = "root" /\ s = "dotdot")
 
 VARIABLES parent, cwd, spelling, done
@@ -54,9 +60,11 @@ SameAsReference == TRUE
 \* ---- layer B: what the coded path tests would do ----------------------------------------------
 AllFilesExcludedB == ExcludeOnAnyPathPart /\ parent \in Excluded /\ MentionsParent(cwd, spelling)
 TestExemptionFlipsB == MarkerSubstring /\ parent \in Markers /\ MentionsParent(cwd, spelling)
-PlacementIndependentB == done => ~AllFilesExcludedB /\ ~TestExemptionFlipsB
+ForeignIgnoreAppliesB == RuleParserAtCwd /\ cwd = "other"
+PlacementIndependentB == done => ~AllFilesExcludedB /\ ~TestExemptionFlipsB /\ ~ForeignIgnoreAppliesB
 
 Emit == done => PrintT(<<"CASE", ToJson([parent |-> parent, cwd |-> cwd, spelling |-> spelling,
                                           predicted |-> IF AllFilesExcludedB THEN "excluded"
-                                                        ELSE IF TestExemptionFlipsB THEN "marker" ELSE "same"])>>)
+                                                        ELSE IF TestExemptionFlipsB THEN "marker"
+                                                        ELSE IF ForeignIgnoreAppliesB THEN "foreignIgnore" ELSE "same"])>>)
 =============================================================================
